@@ -690,6 +690,7 @@ pub fn cmd_check(a: &[String]) -> i32 {
         }
     }
     let mut new_violations = 0;
+    let t_shrink = std::time::Instant::now();
     let replay_dir = format!("{}/replays/{}", verif_root(), prop);
     let mut replay_paths = vec![];
     for (_k, v) in by_key.iter() {
@@ -726,7 +727,19 @@ pub fn cmd_check(a: &[String]) -> i32 {
             continue;
         }
         new_violations += 1;
-        let (m, tried) = shrink::minimise(v, 400, Duration::from_secs(60));
+        // minimisation budget per batch: a defect that shows at many sites must not turn a
+        // quick check into an hour of shrinking - the first 24 violations get the full budget
+        // (400 candidates / 60 s), later ones a small one, and after 10 minutes in total the
+        // remaining replay files are written un-minimised (they replay all the same)
+        let spent = t_shrink.elapsed();
+        let (cands, secs) = if spent > Duration::from_secs(600) {
+            (0, 0)
+        } else if new_violations > 24 {
+            (40, 5)
+        } else {
+            (400, 60)
+        };
+        let (m, tried) = if cands == 0 { (v.clone(), 0) } else { shrink::minimise(v, cands, Duration::from_secs(secs)) };
         let _ = std::fs::create_dir_all(&replay_dir);
         let fname = format!(
             "{}/{}-{}-{}.json",
